@@ -72,6 +72,7 @@ impl Next<f64> for BadShared {
         let addr = (&self.sum as *const f64) as usize; // S6 address leak
         self.seen.insert(addr as u64, input);        // S5 HashMap
         self.deque = vec![0.0; self.period + 1].into_boxed_slice(); // G3 re-allocation
+        self.index += 1;
         self.sum += input + jitter * 0.0 + TABLE[0];
         self.sum / (self.history.len() as f64)
     }
